@@ -424,7 +424,10 @@ class IsotxsIO(cccc.Stream):
         metadata = self._getNuclideIO()(nuclide, self, self._lib)._getNuclideMetadata()
         if metadata["chiFlag"] > 1:
             numRecords += 1
-        numRecords += sum(1 for _ord in metadata["ords"] if _ord > 0)
+        # every scattering block present is written as NSBLOK sub-block records
+        numRecords += self._metadata["subblockingControl"] * sum(
+            1 for _ord in metadata["ords"] if _ord > 0
+        )
         return numRecords
 
 
@@ -670,6 +673,9 @@ class _IsotxsNuclideIO:
             indptr = [0]
             indices = []
             dataVals = []
+            if scatter is None and subBlock > 0:
+                # reading: go on with the rows read from the preceding sub-blocks
+                indptr, indices, dataVals = self._subBlockRows
             for _scatterLoopOrder in range(lordn):
                 for g in range(jl - 1, ju):
                     jup = g + metadata["jj"][g, blockNumIndex]
@@ -688,6 +694,10 @@ class _IsotxsNuclideIO:
 
         if scatter is None:
             # we're reading.
+            if m < nsblok:
+                # the matrix is complete after the last sub-block only
+                self._subBlockRows = (indptr, indices, dataVals)
+                return
             scatter = sparse.csr_matrix(
                 (np.array(dataVals), indices, indptr), shape=(ng, ng)
             )
